@@ -35,6 +35,7 @@ theorem step_eval_simple (s : St) (e : Expr) (env : EId) (tail : Bool) (d : Nat)
   have h5 := coerceToString_spec rec hrec
   have h7 := binaryOp_spec cfg rec hrec
   have h10 := sliceArg_spec rec hrec
+  have h12 := binaryOp3_spec (cfg := cfg) rec hrec
   have hr := rec_spec rec hrec
   qstart
   cases e with
@@ -56,7 +57,13 @@ theorem step_eval_simple (s : St) (e : Expr) (env : EId) (tail : Bool) (d : Nat)
   | superIndex => simp only [WS] at hws; ecase
   | var => simp only [WS] at hws; ecase
   | if_ c t el => simp only [WS] at hws; ecase
-  | binary op a b => simp only [WS] at hws; ecase
+  | binary op a b =>
+    simp only [WS] at hws
+    unfold step
+    mvcgen [g0, g1, g2, g3, g4, g5, g6, g7, g8, h1, h2, h3, h4, h5, h7, h10, h12, hr]
+    all_goals clear g0 g1 g2 g3 g4 g5 g6 g7 g8 h1 h2 h3 h4 h5 h7 h10 h12 hr
+    all_goals vcprep
+    all_goals eclose
   | unary => simp only [WS] at hws; ecase
   | func => ecase
   | assert_ => simp only [WS] at hws; ecase
@@ -127,7 +134,7 @@ theorem step_eval_builtin (s : St) (b : Builtin) (args : Exprs) (env : EId) (tai
     ⦃fun st => ⌜st = s⌝⦄ step cfg rec (.eval (.builtin b args) env tail d) ⦃Q s (fun _ _ => True)⦄ := by
   have h1 := newThunk_spec
   have h2 := checkDepth_spec
-  have h3 := builtinCall2_spec (cfg := cfg) rec hrec
+  have h3 := builtinCall3_spec (cfg := cfg) rec hrec
   simp only [WS] at hws
   have hmem := WSExprs_mem args Γ hws.2
   qstart
